@@ -298,10 +298,19 @@ let () =
                             | Some st, _ -> Some (f64_ls_flags q st.o_last)
                             | None, Some (Ok it) -> Some (it.io_exh, it.io_total_lt)
                             | _ -> None in
-                          let tag = match flags with
+                          (* WindowOK of the theorems (C13_score_step_bounds): the whole window holds
+                             at least the mass p (not "exhausted") and the table has an attainable
+                             key besides the overflow key (not "empty"); "bottom-reached" alone is
+                             covered by the theorem *)
+                          let empty = match o.st, mit with
+                            | Some st, _ -> List.length st.o_last <= 1
+                            | None, Some (Ok it) ->
+                                (match List.rev it.io_rows with r :: _ -> List.length r <= 1 | [] -> true)
+                            | _ -> false in
+                          let tag = (match flags with
                             | Some (true, true) -> " window-exhausted"
                             | Some (true, false) -> " window-bottom-reached"
-                            | _ -> "" in
+                            | _ -> "") ^ (if empty then " window-empty" else "") in
                           (match f64_to_dy o.g, f64_to_dy o.score, qdy with
                            | Some g, Some t, Some p ->
                                let c = int64_of_z (c13_check tol mz e p g t) in
